@@ -1138,7 +1138,10 @@ for _n, _c, _r in [("qsdisk", cb.QuarterSplineDisk, False), ("hsdisk", cb.HalfSp
 
 
 def _sh(name, strategy, build, quick=8, curved=lambda p: True, labels=lambda p: [], family="shape"):
-    _reg(Ent(name, family, strategy, build, curved=curved, quick=quick, labels=labels, center_covariant=family != "joint"))
+    # JointBase.center and EighthSphere.center are a corner of a particular face: not the image of the old one once a
+    # mirror has swapped bottom and top
+    _reg(Ent(name, family, strategy, build, curved=curved, quick=quick, labels=labels,
+             center_covariant=family != "joint" and name != "hemisphere"))
 
 
 @st.composite
